@@ -328,6 +328,15 @@ func runCheck(id, tier, replayPath string, workers int, extraOverlay map[string]
 		}
 		exit = 2
 	}
+	if coverageOn {
+		writeCoverage(&spec, tier, results)
+		// coverage fields are a dev aid, not evidence
+		for _, r := range results {
+			for i := range r.Funcs {
+				r.Funcs[i].File, r.Funcs[i].Line, r.Funcs[i].NBlocks, r.Funcs[i].Covered, r.Funcs[i].BlockLn = "", 0, 0, nil, nil
+			}
+		}
+	}
 	writeEvidence(&spec, tier, seed, results, allViol, knownHits, inconclusive, vacuous, loadS, time.Since(t0).Seconds())
 	fmt.Printf("%s %s: exit=%d wall=%.1fs\n", id, tier, exit, time.Since(t0).Seconds())
 	return exit
@@ -338,6 +347,18 @@ func trunc(s string, n int) string {
 		return s[:n] + "…"
 	}
 	return s
+}
+
+// writeCoverage dumps, per entry, the block coverage of every executed function (dev aid for tools/coverage.py).
+func writeCoverage(spec *CheckSpec, tier string, results []*EntryResult) {
+	dir := os.Getenv("VERIF_COVERAGE_DIR")
+	os.MkdirAll(dir, 0o755)
+	out := map[string]any{}
+	for _, r := range results {
+		out[r.Entry] = r.Funcs
+	}
+	b, _ := json.Marshal(map[string]any{"check": spec.Property, "tier": tier, "entries": out})
+	os.WriteFile(filepath.Join(dir, spec.Property+"-"+tier+".json"), b, 0o644)
 }
 
 func writeEvidence(spec *CheckSpec, tier string, seed int, results []*EntryResult, viol []Violation, known map[string]string, inconclusive, vacuous []string, loadS, wall float64) {
